@@ -726,7 +726,15 @@ def pmap_drive(cases):
 
 def run(ctx):
     rng = ctx.rng
+    # second tie: the isolation points of request.py / topology_parameters.py / science_utils.py / worker_utils.py are
+    # re-read from /repo's source; Proofs/BatchGen.v is then re-checked against what the code does now
+    from . import pygen_c16
+    gen_ok, gen_msg = pygen_c16.regenerate()
     ctx.proof = common.check_props('C16')
+    if not gen_ok:
+        ctx.proof['ok'] = False
+        ctx.proof['log'] = 'harness/pygen_c16.py: ' + gen_msg + '\n' + ctx.proof.get('log', '')
+        ctx.proof['failed_file'] = 'theories/Gen/BatchGen.v (translation of /repo source failed)'
     ctx.rule = ('random 2-5 ROADM networks (random amplifier p_max incl. a saturating region, 5-24 channel bands) x batches of '
                 '2-7 requests (fixed / automatic mode, offsets, bidirectional, channel counts, include constraints, twins and '
                 'near-twins differing in one compared attribute; 30 % built through the PathRequest API); '
@@ -809,6 +817,10 @@ def run(ctx):
             ctx.corr_break('corr:Batch.obs_ok', f'python oracle says {ok}, proved validator says {line}', case_public(c),
                            impl=ok, model=line)
     ctx.assumptions += [
+        'translator tie: harness/pygen_c16.py (fail-closed template / ast checks of the isolation points: per-request deep '
+        'copies and one result per request in compute_path_with_disjunction, restore of the designed gains in '
+        'propagate_and_optimize_mode, no route memo and vector order in compute_path_dsjctn, compare_reqs fields, '
+        'BaseParams.update_attr, no store into SimParams in science_utils / elements, steps of planning)',
         'the element snapshot walks vars() of every network element (params / operational objects included, references '
         'to other elements reduced to their uid)',
         'figures handed to the validator are quantised to 1e-6 dB (validator tolerance: one unit); the python oracle '
